@@ -666,6 +666,7 @@ impl Program {
         use crate::verif_hooks::{value_kind_and_text, Loc};
         snapshot.location = Loc::from(self.location);
         snapshot.immediate_line_tokens = self.immediate_line.len();
+        snapshot.nesting_depth = self.nesting_depth;
         snapshot.breakpoint = self
             .breakpoint
             .map(|nloc| Loc::from(ProgramLocation::from(nloc)));
